@@ -5,6 +5,7 @@ true_stress_strain.*  (see DESIGN 4/C16).
 """
 import z3
 from pv.api import obligation
+from pv.bounded import bounded
 from pv.sym import SV, RV, ex, lg
 from pv import sym, npmodel
 
@@ -365,13 +366,96 @@ def true_ss(o):
     o.canary('canary: true_strain == e', z3.Implies(e != 0, eps.t == e))
 
 
+
+@bounded('C16', 'inverse-grid', shards=8)
+def b_inverse(ctx):
+    """the numeric side of the Ramberg-Osgood inverse (the proof idealises Newton's iteration to 'returns a root'): stress(strain(s)) = s, strain(stress(e)) = e,
+    delta_stress(delta_strain(ds)) = ds on a parameter grid, for scalars and for arrays / Series that mix signs and contain exact zeros; oddness; Hooke 1D / 3D round
+    trips on the same containers (added after seed C16-d handed scipy a second derivative that is infinite at zero stress for n > 1/2)"""
+    import itertools
+    import warnings
+    import numpy as np
+    import pandas as pd
+    from pylife.materiallaws import RambergOsgood
+    from pylife.materiallaws.hookeslaw import HookesLaw1d, HookesLaw3d
+    warnings.simplefilter('ignore')
+    Es, Ks = [70e3, 210e3], [500.0, 1078.0, 2650.0]
+    ns = [0.1, 0.133, 0.2, 0.35, 0.5, 0.6, 0.8, 0.95]
+    fractions = [-1.2, -0.6, -0.05, 0.0, 1e-6, 0.02, 0.3, 0.9, 1.3]
+    ctx.bound = f"E in {Es}, K in {Ks}, n in {ns}; stresses = K x {fractions} (all in one array: signs mixed, exact zero included), the same as scalars and as a Series; stress ranges 2 x |.|; entries with a total strain above 10 % dropped; tolerance 1e-4 relative + 1e-6 K"
+    ctx.rule = "every (parameter set, container, function) is one case; non-trivial: array / Series input"
+    ctx.exhaustive = True
+    for E, K, n in itertools.product(Es, Ks, ns):
+        if not ctx.mine():
+            continue
+        ro = RambergOsgood(E, K, n)
+        s = np.array(fractions) * K
+        # "within the physically meaningful range": total strains up to 10 % - cyclic stress-strain curves are used for strains of a few per cent - (for n = 0.1 a stress of 1.3 K means a strain of 1380 %, and already at 35 % Newton's iteration
+        # from the elastic estimate does not converge on the unchanged tree either - outside the statement's domain, stated in the bound)
+        s = s[np.abs(np.asarray(ro.strain(s), dtype=float)) <= 0.1]
+        ds = 2 * np.abs(s)
+
+        def close(a, b):
+            a, b = np.asarray(a, dtype=float), np.asarray(b, dtype=float)
+            return a.shape == b.shape and bool(np.all(np.isfinite(a))) and bool(np.all(np.abs(a - b) <= 1e-4 * np.abs(b) + 1e-6 * K))
+        containers = {'array': lambda v: np.array(v, dtype=float), 'series': lambda v: pd.Series(np.array(v, dtype=float)), 'two-element array with a zero': lambda v: np.array([0.0, float(np.asarray(v)[-1])])}
+        for cname, mk in containers.items():
+            for label, fwd, back, arg in (('stress(strain(s))', ro.strain, ro.stress, s), ('delta_stress(delta_strain(ds))', ro.delta_strain, ro.delta_stress, ds)):
+                x = mk(arg)
+                want = np.asarray(x, dtype=float).copy()
+                ctx.case(True, key=(E, K, n, cname, label))
+                try:
+                    got = back(fwd(x))
+                except Exception as e:   # noqa
+                    ctx.count(f'solver-exception:{type(e).__name__}')
+                    continue
+                if not close(got, want):
+                    ctx.fail(f'C16:inverse:{label}:{cname}', f'RambergOsgood({E}, {K}, {n}): {label} on {cname} {want.tolist()} returns {np.asarray(got, dtype=float).tolist()}',
+                             f"import numpy as np\nfrom pylife.materiallaws import RambergOsgood\nro = RambergOsgood({E}, {K}, {n})\nx = np.array({want.tolist()!r})\n"
+                             f"got = ro.{'stress(ro.strain(x))' if label.startswith('stress') else 'delta_stress(ro.delta_strain(x))'}\nprint(got)\nassert np.allclose(got, x, rtol=1e-4, atol=1e-6 * {K})\n")
+            # the other direction, and oddness
+            e = np.asarray(ro.strain(s), dtype=float)
+            x = mk(e)
+            ctx.case(True, key=(E, K, n, cname, 'strain(stress(e))'))
+            try:
+                eb = np.asarray(ro.strain(ro.stress(x)), dtype=float)
+                if not (np.all(np.isfinite(eb)) and np.all(np.abs(eb - np.asarray(x, dtype=float)) <= 1e-4 * np.abs(np.asarray(x, dtype=float)) + 1e-6 * K / E)):
+                    ctx.fail(f'C16:inverse:strain(stress(e)):{cname}', f'RambergOsgood({E}, {K}, {n}): strain(stress(e)) on {cname} {np.asarray(x, dtype=float).tolist()} returns {eb.tolist()}', None)
+                sb, sbn = np.asarray(ro.stress(x), dtype=float), np.asarray(ro.stress(-x), dtype=float)
+                if not np.all(np.abs(sb + sbn) <= 1e-4 * np.abs(sb) + 1e-6 * K):
+                    ctx.fail(f'C16:odd:stress:{cname}', f'RambergOsgood({E}, {K}, {n}): stress(-e) != -stress(e) on {cname}: {sbn.tolist()} vs {sb.tolist()}', None)
+            except Exception as ex_:   # noqa
+                ctx.count(f'solver-exception:{type(ex_).__name__}')
+        # scalars one by one
+        for v in s:
+            ctx.case(False, key=(E, K, n, 'scalar', float(v)))
+            try:
+                got = float(ro.stress(ro.strain(float(v))))
+            except Exception as e:   # noqa
+                ctx.count(f'solver-exception:{type(e).__name__}')
+                continue
+            if not close(got, float(v)):
+                ctx.fail('C16:inverse:stress(strain(s)):scalar', f'RambergOsgood({E}, {K}, {n}): stress(strain({v})) = {got}', None)
+        h1, h3 = HookesLaw1d(E), HookesLaw3d(E, 0.3)
+        for cname, mk in list(containers.items())[:2]:
+            x = mk(s)
+            ctx.case(True, key=(E, K, n, cname, 'hooke'))
+            if not close(h1.stress(h1.strain(x)), np.asarray(x, dtype=float)):
+                ctx.fail(f'C16:hooke1d:{cname}', f'HookesLaw1d({E}): stress(strain(x)) != x on {cname}', None)
+            e11, e22, e33, g12, g13, g23 = h3.strain(x, 0.5 * x, -x, 0.1 * x, 0 * x, 0.2 * x)
+            back = h3.stress(e11, e22, e33, g12, g13, g23)
+            if not all(close(b, w) for b, w in zip(back, (x, 0.5 * x, -x, 0.1 * x, 0 * x, 0.2 * x))):
+                ctx.fail(f'C16:hooke3d:{cname}', f'HookesLaw3d({E}, 0.3): stress(strain(.)) is not the identity on {cname}', None)
+    ctx.sample({'E': 210e3, 'K': 1078.0, 'n': 0.6, 'stresses': [f * 1078.0 for f in fractions]})
+
+
 META = {
     'level': 'proof',
     'explanation': "Every clause of C16 is an obligation generated from the current text of rambgood.py / hookeslaw.py / true_stress_strain.py "
                    "and discharged by z3 for all real parameters in the stated ranges (E,K>0, 0<n<1, -1<nu<1/2), scalar and array (generic element) input. "
                    "The inverse RambergOsgood.stress goes through scipy.optimize.newton: proved are the call-site obligations (fprime is the derivative of func) "
                    "and, from the assumed contract 'newton returns a root', strain(stress(e)) = e, stress(strain(s)) = s and the Masing pair.",
-    'not_decided': ["that Newton's iteration converges for every input and how close to the root it stops (tolerance idealised to 0)",
+    'not_decided': ["that Newton's iteration converges for every input and how close to the root it stops (tolerance idealised to 0): bounded stand-in inverse-grid only",
                     "derivative claim at exactly s = 0 (one point)"],
     'trusted_base': ['assumed contract of scipy.optimize.newton', 'axioms of 10**u / log10 (inverse, monotone, homomorphism)', 'floats = reals'],
 }
